@@ -3,6 +3,7 @@ CONSTANTS
   PartialUsecAsterisks = TRUE
   NegOffsetFix = FALSE
   CopyKeepsPrecision = TRUE
+  ForeignTzNorm = "keep"
   Years <- YearsS
   Months <- MonthsS
   DaysOfMonth <- DomS
